@@ -1,7 +1,6 @@
 (** C02: calls to an actor run in the order made, gated by its lifecycle (Layer R).
-    Proved for every program of the DSL and every amount of fuel (global / thread-local deferrer), on terminated
-    executions in which the model never flagged an access to an actor cell that is not in its table
-    ([EModel M_UAF]; see below): the monitor C02_ok (coq/R/Mon.v) holds of the trace.  That is:
+    Proved for every program of the DSL and every amount of fuel (global / thread-local deferrer): the monitor
+    C02_ok (coq/R/Mon.v) holds of the trace of a terminated execution.  That is:
     - a method call starts (EMeth a u) only while actor a is Ready, only if u is the OLDEST call to a that was
       queued and has neither started nor been dropped (calls held while a was in Prep included), and only once;
     - a Prep call starts (EPrep a u) only while a is in Prep, once;
@@ -9,19 +8,18 @@
     - a queued call is discarded (EDrop u (Some _) true) only if its target has been notified as terminated, or
       the queues are being torn down (Stakker created / dropped), or else the termination notification of the
       target comes before anything else starts and before run returns.
-    The remaining hypothesis: the model has defensive branches "the target cell of this item is not in the actor
-    table" that emit EModel M_UAF; they are unreachable from the DSL (an item or handle keeps its cell), the
-    differential check has never seen the event in a model trace, but that is not proved yet -- hence _partial.
+    (With the inline deferrer a call submitted while no Stakker exists is forgotten without a drop event, so
+    the statement is for DGlobal, as for the calls conjunct of C06.)
     See coq/R/C02Proofs.v and docs/layer_r.md. *)
 From Coq Require Import ZArith NArith List.
 Import ListNotations.
 From Stk Require Import Lib.U Gen.SrcCount R.Syntax R.Rt R.Mon R.Count R.OneStep R.C02Proofs.
 Local Open Scope Z_scope.
 
-Theorem C02_fifo_lifecycle_partial : forall (p : list top) (fuel : nat) (t : list ev),
-  exec DGlobal fuel p = Done t -> (forall a, ~ In (EModel M_UAF a) t) -> C02_ok t = true.
+Theorem C02_fifo_lifecycle : forall (p : list top) (fuel : nat) (t : list ev),
+  exec DGlobal fuel p = Done t -> C02_ok t = true.
 Proof. exact C02_proved. Qed.
-Print Assumptions C02_fifo_lifecycle_partial.
+Print Assumptions C02_fifo_lifecycle.
 
 Example C02_example :
   exists t, exec DGlobal 600
@@ -29,7 +27,6 @@ Example C02_example :
      TDo [ANewActor 1 1 None; ACall 1 (Clo 1 0 0 [] []); ACall 1 (Clo 2 0 0 [] []); ACallPrep 1 (Clo 3 0 0 [] []) true;
           ANewActor 2 2 None; ACall 2 (Clo 4 0 0 [] []); ACallPrep 2 (Clo 5 0 0 [] [AFail 7]) false];
      TRun 2 false] = Done t
-    /\ (forall a, ~ In (EModel M_UAF a) t)
     /\ In (EReady 1%N) t /\ In (EMeth 1%N 1%N 2) t /\ In (EMeth 1%N 2%N 2) t
     /\ In (EDrop 4%N (Some QMain) true) t /\ In (ENotify 2%N (Some (CFail 7%N))) t.
 Proof. exact C02_nontrivial. Qed.
